@@ -17,6 +17,42 @@ class Unsupported(Exception):
     """Construct outside the accepted subset: the function is UNDECIDED, never passed."""
 
 
+_AC_KINDS = None
+
+
+def stable_hash(e, memo=None):
+    """structural hash that ignores the argument order of commutative operators (z3.simplify orders them by
+    internal ids, which differ between processes)"""
+    global _AC_KINDS
+    import zlib
+    if _AC_KINDS is None:
+        _AC_KINDS = {z3.Z3_OP_AND, z3.Z3_OP_OR, z3.Z3_OP_ADD, z3.Z3_OP_MUL, z3.Z3_OP_EQ, z3.Z3_OP_DISTINCT, z3.Z3_OP_IFF}
+    if memo is None:
+        memo = {}
+    i = e.get_id()
+    if i in memo:
+        return memo[i]
+    if z3.is_quantifier(e):
+        h = zlib.crc32(('Q%d|%d' % (e.num_vars(), stable_hash(e.body(), memo))).encode())
+    elif z3.is_var(e):
+        h = zlib.crc32(('V%d' % z3.get_var_index(e)).encode())
+    elif z3.is_app(e):
+        kids = [stable_hash(c, memo) for c in e.children()]
+        d = e.decl()
+        if d.kind() in _AC_KINDS:
+            kids.sort()
+        name = d.name() if e.num_args() else e.sexpr()
+        h = zlib.crc32(('%s/%d|%s' % (name, d.kind(), ','.join(map(str, kids)))).encode())
+    else:
+        h = zlib.crc32(e.sexpr().encode())
+    memo[i] = h
+    return h
+
+
+class ReplayMismatch(Exception):
+    pass
+
+
 class PathEnd(Exception):
     """Path is finished (infeasible, or cut at a loop invariant)."""
 
@@ -454,22 +490,30 @@ class State:
         return None
 
     def _branch(self, cond):
+        """decisions are (taken side, structural hash of the condition): a prefix handed to another process is
+        replayed without feasibility checks, and must meet the same conditions in the same order"""
+        h = stable_hash(cond)
         if self.pos < len(self.decisions):
-            d = self.decisions[self.pos]
+            rec = self.decisions[self.pos]
+            d, h0 = rec if isinstance(rec, tuple) else (rec, None)
+            if h0 is not None and h0 != h:
+                raise ReplayMismatch('decision %d was recorded for another condition (non-deterministic replay): %s'
+                                     % (self.pos, str(cond)[:200].replace('\n', ' ')))
+            self.decisions[self.pos] = (d, h)
         else:
             ms = None
             can_t = True if ms is True else self.feasible(cond)
             can_f = True if ms is False else self.feasible(z3.Not(cond))
             if can_t and can_f:
                 d = True
-                self.pending.append(self.decisions[:self.pos] + [False])
+                self.pending.append(self.decisions[:self.pos] + [(False, h)])
             elif can_t:
                 d = True
             elif can_f:
                 d = False
             else:
                 raise PathEnd('infeasible')
-            self.decisions.append(d)
+            self.decisions.append((d, h))
         self.pos += 1
         self.pc.append(cond if d else z3.simplify(z3.Not(cond)))
         return d
@@ -477,7 +521,7 @@ class State:
     def oblige(self, fn, clause, kind, goal, where=''):
         goal = z3.simplify(goal)
         self.obligations.append(Obligation(fn, clause, kind, list(self.pc), goal,
-                                           tuple(self.decisions[:self.pos]), where))
+                                           tuple(bool(x[0] if isinstance(x, tuple) else x) for x in self.decisions[:self.pos]), where))
 
     # -- reading through stores -------------------------------------------------------------
     def alias(self, a, b):
